@@ -304,9 +304,11 @@ class Abstractor:
             fgraphs.append((fn, gid))
             self.P["f"].append({"body": gid, "nin": len(fn.inputs)})
         self.fids = fids
-        self._declare(m.graph, main, is_main=True)
+        # (graph ids: main graph, function bodies, graphs nested in function bodies, graphs nested in the main graph -
+        # the order in which RewriteMC builds a program)
         for fn, gid in fgraphs:
             self._declare(fn, gid, is_main=False)
+        self._declare(m.graph, main, is_main=True)
         self._fill(m.graph, main)
         for fn, gid in fgraphs:
             self._fill(fn, gid)
